@@ -465,6 +465,81 @@ def _shape_of(v, assigned, depth=0):
     return 'unknown'
 
 
+def r8_fresh_parse(run: Run, src):
+    """tokens remember the cell they were lexed in (in_cell) and resolve un-prefixed references on its sheet: the tree a cell is
+    translated from must be lexed and parsed for that very cell, never taken from a store shared between cells"""
+    from .common import normalized_method
+    fi, fn = normalized_method(src, 'CellTranslator', '_set_cell_to_context')
+    cellp = fi.params[0] if fi.params and fi.params[0] not in ('cls', 'self') else fi.params[1]
+    loc = loc_of(fi.module.path, fi.node)
+
+    def assignments(name):
+        out = []
+        for n in ast.walk(fn):
+            if isinstance(n, ast.Assign) and any(isinstance(t, ast.Name) and t.id == name for t in n.targets):
+                out.append(n.value)
+            elif isinstance(n, ast.NamedExpr) and n.target.id == name:
+                out.append(n.value)
+            elif isinstance(n, (ast.AnnAssign, ast.AugAssign)) and isinstance(n.target, ast.Name) and n.target.id == name and \
+                    n.value is not None:
+                out.append(n.value)
+        return out
+
+    def is_cell(e):
+        if isinstance(e, ast.Name) and e.id == cellp:
+            return True
+        if isinstance(e, ast.Name):
+            ds = assignments(e.id)
+            return bool(ds) and all(is_cell(d) for d in ds)
+        return False
+
+    def in_cell_ok(call):
+        kw = {k.arg: k.value for k in call.keywords}
+        v = kw.get('in_cell', call.args[1] if len(call.args) > 1 else None)
+        return v is not None and is_cell(v)
+
+    def cell_text(e):
+        if isinstance(e, ast.Attribute) and e.attr == 'value' and is_cell(e.value):
+            return True
+        if isinstance(e, ast.Name):
+            ds = assignments(e.id)
+            return bool(ds) and all(cell_text(d) for d in ds)
+        return False
+
+    def fresh(e, producer, depth=0):
+        """None when e is, on every definition, a call of <producer>.parse for this cell; else the offending expression"""
+        if depth > 6:
+            return e
+        if isinstance(e, ast.Name):
+            ds = assignments(e.id)
+            if not ds:
+                return e
+            for d in ds:
+                bad = fresh(d, producer, depth + 1)
+                if bad is not None:
+                    return bad
+            return None
+        if isinstance(e, ast.Call) and ast.unparse(e.func) == f'{producer}.parse':
+            if not in_cell_ok(e):
+                return e
+            if producer == 'AstBuilder':
+                return fresh(e.args[0], 'Lexer', depth + 1) if e.args else e
+            return None if e.args and cell_text(e.args[0]) else e
+        return e
+    sites = [n for n in ast.walk(fn) if isinstance(n, ast.Call) and isinstance(n.func, ast.Attribute) and n.func.attr == 'translate' and
+             isinstance(n.func.value, ast.Name) and n.func.value.id.endswith('TokenTranslator') and n.args]
+    if not sites:
+        raise AnalysisError('C02.R8', 'the call that translates the syntax tree of a formula cell was not found')
+    for sct in sites:
+        bad = fresh(sct.args[0], 'AstBuilder')
+        run.check(bad is None, 'C02.R8', f'CellTranslator/{ast.unparse(sct.func)}', 'tree-not-parsed-for-this-cell',
+                  f'the syntax tree handed to `{ast.unparse(sct.func)}` can come from `{ast.unparse(bad)[:70] if bad is not None else ""}` '
+                  f'instead of Lexer.parse / AstBuilder.parse of this cell\'s text with in_cell = this cell: tokens keep the cell they '
+                  f'were lexed in and resolve un-prefixed references on ITS sheet, so a tree shared between cells (a memo keyed by the '
+                  f'formula text, for instance) reads the first cell\'s sheet', fact='fresh Lexer.parse / AstBuilder.parse per cell',
+                  loc=loc_of(fi.module.path, sct))
+
+
 def run(run: Run):
     src = get_source()
     g = get_grammar(src)
@@ -483,6 +558,12 @@ def run(run: Run):
     run.rule('C02.R6', 'title list, data and sizes are index-aligned per worksheet (shared with C18.R2)')
     borrow(run, 'C02.R6', c18.r2, src)
     run.floor('C02.R6', 5)
+    run.rule('C02.R7', 'the reader delivers every stored cell at its coordinate (stream not truncated; shared with C18.R1)')
+    borrow(run, 'C02.R7', c18.r1, src)
+    run.floor('C02.R7', 8)
+    run.rule('C02.R8', 'the tree a cell is translated from is lexed and parsed for that very cell (in_cell = the cell)')
+    run.guard('C02.R8', r8_fresh_parse, run, src)
+    run.floor('C02.R8', 1)
     run.floor('C02.R1', 24)
     run.floor('C02.R2', 14)
     run.floor('C02.R3', 2)
